@@ -62,6 +62,10 @@ type SwapService struct {
 	sync.RWMutex
 
 	lastMsgLog map[string]string
+
+	// lockedChannels maps the id of every active swap to the channel it was
+	// locked for (a swap carries its channel only once its request is applied).
+	lockedChannels map[string]string
 }
 
 func NewSwapService(services *SwapServices) *SwapService {
@@ -1026,6 +1030,7 @@ func (s *SwapService) RemoveActiveSwap(swapId string) {
 	defer s.Unlock()
 	delete(s.lastMsgLog, swapId)
 	delete(s.activeSwaps, swapId)
+	delete(s.lockedChannels, swapId)
 }
 
 // lockSwap locks in a swap. This function ensures that we only have one active
@@ -1042,8 +1047,20 @@ func (s *SwapService) lockSwap(swapId, channelId string, fsm *SwapStateMachine) 
 		}
 	}
 
+	// A swap that was locked in a moment ago does not carry its channel in its
+	// data yet: also compare with the channel every active swap was locked for.
+	for id, scid := range s.lockedChannels {
+		if sameChannel(scid, channelId) {
+			return ActiveSwapError{channelId: channelId, swapId: id}
+		}
+	}
+
 	// Add active swap
 	s.activeSwaps[swapId] = fsm
+	if s.lockedChannels == nil {
+		s.lockedChannels = map[string]string{}
+	}
+	s.lockedChannels[swapId] = channelId
 	return nil
 }
 
